@@ -49,15 +49,22 @@ func (mf *memFile) Less(than btree.Item) bool {
 var _ btree.Item = (*memFile)(nil)
 
 func (ms *memstore) CreateBucket(bucket string) error {
+	ms.getOrCreateBucket(bucket)
+	return nil
+}
+
+func (ms *memstore) getOrCreateBucket(bucket string) *memBucket {
 	ms.mu.Lock()
 	defer ms.mu.Unlock()
-	if ms.buckets[bucket] == nil {
-		ms.buckets[bucket] = &memBucket{
+	b := ms.buckets[bucket]
+	if b == nil {
+		b = &memBucket{
 			created: timeNow(),
 			files:   btree.New(16),
 		}
+		ms.buckets[bucket] = b
 	}
-	return nil
+	return b
 }
 
 func (ms *memstore) GetBucketMeta(baseUrl HttpBaseUrl, bucket string) (*storage.Bucket, error) {
@@ -103,7 +110,8 @@ func (ms *memstore) Add(bucket string, filename string, contents []byte, meta *s
 	}
 
 	simYield("mem.add.bucket")
-	b := ms.getBucket(bucket)
+	// The bucket may have been deleted since the top of this function.
+	b := ms.getOrCreateBucket(bucket)
 	b.mu.Lock()
 	defer b.mu.Unlock()
 	b.files.ReplaceOrInsert(&memFile{
@@ -124,6 +132,9 @@ func (ms *memstore) UpdateMeta(bucket string, filename string, meta *storage.Obj
 
 	simYield("mem.update.bucket")
 	b := ms.getBucket(bucket)
+	if b == nil {
+		return os.ErrNotExist // the bucket was deleted meanwhile
+	}
 	b.mu.Lock()
 	defer b.mu.Unlock()
 	b.files.ReplaceOrInsert(&memFile{
